@@ -4,7 +4,7 @@ stays green (in a scratch copy), run the designated checks, restore /repo. Usage
 import os, sys, subprocess, shutil, json, tempfile, time
 sys.path.insert(0, os.path.dirname(os.path.abspath(__file__)))
 import mutants
-SRC='/repo'; REPO='/tmp/selftest-wt'; VERIF='/verif'
+SRC='/repo'; REPO='/tmp/selftest-wt'; VERIF=os.environ.get('VERIF_HOME') or os.path.dirname(os.path.dirname(os.path.abspath(__file__)))
 # mutants are applied to a scratch worktree of /repo (removed at the end), never to /repo itself;
 # the checks are pointed at it through VERIF_REPO
 env=dict(os.environ, GOFLAGS='-mod=mod', GOPROXY='off', GOSUMDB='off', GOTOOLCHAIN='local', VERIF_REPO=REPO)
